@@ -4,7 +4,7 @@ R35 FRACTION-DIGITS (C08), R36 NONE-VS-ZERO (C07, C09), R37 SHARED-CONFIG
 import ast
 import re
 
-from ..model import AnalysisError, U, walk_no_nested, parent, ancestors
+from ..model import npos, AnalysisError, U, walk_no_nested, parent, ancestors
 from .tablerules import tables_of
 
 
@@ -301,11 +301,11 @@ def r38_zone_sign_consumers(ctx):
             for n in walk_no_nested(f.node))
         # the routing call must precede the reads
         if routed:
-            call_line = min(n.lineno for n in walk_no_nested(f.node)
+            call_line = min(npos(n) for n in walk_no_nested(f.node)
                             if isinstance(n, ast.Call) and isinstance(
                                 n.func, ast.Attribute) and n.func.attr ==
                             "process_time_zone_info")
-            routed = all(r.lineno > call_line for r in reads
+            routed = all(npos(r) > call_line for r in reads
                          if isinstance(parent(r), ast.Call) and
                          U(parent(r).func).endswith(".get"))
         own = False
@@ -849,25 +849,33 @@ def r47_one_based_guards(ctx):
                 props)
     # weekday normalisation: divmod(dow - 1, DAYS_IN_WEEK) ... + 1
     f = tp.methods.get("_tick_over")
-    ok, why = False, "no divmod normalisation of the weekday found"
+    ok, why = False, "no modulo normalisation of the weekday found"
+    from ..dtable import explore
+    selfn = f.self_name
     for n in walk_no_nested(f.node):
-        if isinstance(n, ast.Assign) and isinstance(n.value, ast.Call) and \
-                U(n.value.func) == "divmod" and "_day_of_week" in U(
-                    n.value.args[0]):
-            arg = n.value.args[0]
-            minus1 = isinstance(arg, ast.BinOp) and isinstance(
-                arg.op, ast.Sub) and U(arg.right) == "1"
-            rem = U(n.targets[0].elts[1]) if isinstance(
-                n.targets[0], ast.Tuple) else None
-            plus1 = any(isinstance(x, ast.Assign) and U(x.targets[0]).endswith(
-                "._day_of_week") and U(x.value).replace(" ", "") in (
-                    "%s+1" % rem, "1+%s" % rem)
-                for x in walk_no_nested(f.node))
-            ok = minus1 and plus1
-            why = "divmod argument %s, weekday restored as %s" % (
-                U(arg), [U(x.value) for x in walk_no_nested(f.node)
-                         if isinstance(x, ast.Assign) and
-                         U(x.targets[0]).endswith("._day_of_week")])
+        if not (isinstance(n, ast.If) and any(
+                isinstance(x, ast.Attribute) and x.attr == "_day_of_week" and
+                isinstance(x.ctx, ast.Store) for st in n.body
+                for x in ast.walk(st)) and any(
+                    (isinstance(x, ast.BinOp) and isinstance(x.op, ast.Mod))
+                    or (isinstance(x, ast.AugAssign) and isinstance(
+                        x.op, ast.Mod))
+                    or (isinstance(x, ast.Call) and U(x.func) == "divmod")
+                    for st in n.body for x in ast.walk(st))
+                and "_day_of_week" in U(n.test)):
+            continue
+        finals = set()
+        for p in explore(n.body):
+            v = p.env.get("@%s._day_of_week" % selfn)
+            if v is not None:
+                finals.add(U(v).replace(" ", ""))
+        dow = "%s._day_of_week" % selfn
+        K = "CALENDAR.DAYS_IN_WEEK"
+        good = {"divmod(%s-1,%s)[1]+1" % (dow, K),
+                "1+divmod(%s-1,%s)[1]" % (dow, K),
+                "(%s-1)%%%s+1" % (dow, K), "1+(%s-1)%%%s" % (dow, K)}
+        ok = bool(finals) and finals <= good
+        why = "the weekday is left as %s" % sorted(finals)
     rep.check(ok, rule, ctx.fkey(f, None, "weekday-modulo"), f.loc(),
               "the 1-based weekday is normalised as divmod(d - 1, 7) + 1",
               "weekday normalisation: %s; a 1-based field must be shifted "
